@@ -45,6 +45,9 @@ Definition info_of (l : list (Z * vinfo)) (k : Z) : vinfo :=
 Definition st_of (p : block_pre) : tstate := {| ts_fc := lookup (bp_fc p); ts_cc := bp_cc p |}.
 
 Definition vcode (v : verdict) : Z := match v with Verified => 2 | Rejected => 3 end.
+(* an item the tally skipped (no bonded validator) is still Challenging *)
+Definition ocode (v : option verdict) : Z := match v with Some x => vcode x | None => 1 end.
+Definition no_active (p : list Z) : bool := match p with [] => true | _ :: _ => false end.
 
 Definition same_set (a b : list Z) : bool :=
   (Nat.eqb (length a) (length b)) && forallb (fun x => memz x b) a && forallb (fun x => memz x a) b.
@@ -77,8 +80,9 @@ Definition block_corr_with (fx : fixes) (p : block_pre) (o : block_obs) : bool :
   | None => bo_panic o
   | Some (st', vs, sl) =>
       negb (bo_panic o) &&
-      zlist_eqb (map vcode vs) (bo_status o) &&
-      forallb (fun x => x =? 0) (bo_left o) &&
+      zlist_eqb (map ocode vs) (bo_status o) &&
+      (* every tallied item's proof and invalidity records are gone *)
+      forallb (fun '(v, l) => match v with Some _ => l =? 0 | None => true end) (combine vs (bo_left o)) &&
       forallb (fun v => ts_fc st' v =? lookup (bo_fc o) v) (bp_ids p) &&
       (ts_cc st' =? bo_cc o) &&
       same_set sl (bo_slash_ev o) && same_set sl (bo_jail_ev o) &&
@@ -99,13 +103,16 @@ Definition all_wf (p : block_pre) : bool := forallb item_wf (bp_items p).
 Definition is_some {A} (x : option A) : bool := match x with Some _ => true | None => false end.
 
 (* the reference computation is defined on this block: stored records are well-formed, both
-   decimal thresholds of every item are computable (at least one bonded validator, no decimal
-   overflow), and so is the slashing threshold when the epoch ends *)
+   decimal thresholds of every item are computable (no decimal overflow) or nobody is bonded
+   (then nothing is tallied), and the slashing threshold is computable when the epoch ends *)
 Definition spec_defined (p : block_pre) : bool :=
   all_wf p &&
-  forallb (fun it => is_some (zkp_threshold (bp_rf p) (it_n it) (Z.of_nat (length (bp_active p)))) &&
-                     is_some (safe_thr (bp_rf p) (it_n it) (it_parity it))) (bp_items p) &&
-  (if bp_epoch p then is_some (slash_threshold (bp_sft p) (bp_cc p + Z.of_nat (length (bp_items p)))) else true).
+  (no_active (bp_active p) ||
+   forallb (fun it => is_some (zkp_threshold (bp_rf p) (it_n it) (Z.of_nat (length (bp_active p)))) &&
+                      is_some (safe_thr (bp_rf p) (it_n it) (it_parity it))) (bp_items p)) &&
+  (if bp_epoch p
+   then is_some (slash_threshold (bp_sft p) (bp_cc p + Z.of_nat (length (tallied (bp_active p) (bp_items p)))))
+   else true).
 
 (* 1: an item is rejected exactly when (#shards proven by enough distinct validators) + parity < #shards.
       A block that dies although the reference is defined and there was something to tally or an
@@ -115,8 +122,10 @@ Definition mon_verdict (p : block_pre) (o : block_obs) : bool :=
     negb (spec_defined p) || ((Nat.eqb (length (bp_items p)) 0) && negb (bp_epoch p))
   else
   (Nat.eqb (length (bo_status o)) (length (bp_items p))) &&
-  forallb (fun '(it, s) => if item_wf it then s =? vcode (verdict_spec (bp_rf p) it) else true)
-          (combine (bp_items p) (bo_status o)).
+  (* without a bonded validator the tally has nothing to decide with: no demand *)
+  (no_active (bp_active p) ||
+   forallb (fun '(it, s) => if item_wf it then s =? vcode (verdict_spec (bp_rf p) it) else true)
+           (combine (bp_items p) (bo_status o))).
 
 Definition faults_of (p : block_pre) (v : Z) : Z := faults_in (bp_rf p) (bp_active p) (bp_items p) v.
 
